@@ -285,14 +285,25 @@ func (e *Engine) harnessCall(st *State, fn *ssa.Function, args []Value) (Value, 
 		return nil, true
 	case "verifChanHandler":
 		// verifChanHandler(ch, fn): a send to ch is handed to fn synchronously (the harness plays the goroutine that serves ch)
-		cv, ok := args[0].(ChanVal)
-		if !ok {
+		p, ok := args[0].(PtrVal)
+		if !ok || p.Obj == 0 {
 			unsupported("verifChanHandler on %T", args[0])
 		}
-		co := *st.chans[cv.Obj]
-		co.handler = args[1]
-		st.chans[cv.Obj] = &co
+		nh := map[int]Value{}
+		for k, v := range st.handlers {
+			nh[k] = v
+		}
+		nh[p.Obj] = args[1]
+		st.handlers = nh
 		return nil, true
+	case "verifGoReset":
+		st.goCount = 0
+		return nil, true
+	case "verifGoCount":
+		if st.goCount < 0 {
+			unsupported("verifGoCount without verifGoReset")
+		}
+		return ConstBV(uint64(st.goCount), 64), true
 	case "verifItoa":
 		if t, ok := args[0].(*Term); ok && t.IsConst() {
 			return ConcreteString(fmt.Sprint(t.Signed())), true
